@@ -6,6 +6,7 @@ every slice, and what a kept slice shows later).
 import SwV.Model.C35
 import SwV.Spec.C35
 import SwV.Lemmas.C35
+import SwV.Gen.C35
 
 namespace SwV.Props.C35
 open SwV.Model.C35 SwV.Spec.C35 SwV.Lemmas.C35
@@ -287,5 +288,151 @@ theorem readers_never_torn_partial (pre post : List Op) (vid : Nat) (snap : List
 
 example : ∀ op ∈ [Op.add 1 ⟨"u4", ""⟩, Op.del 2 "u1"], noDelOn 1 op := by
   intro op h; simp at h; rcases h with rfl | rfl <;> simp [noDelOn]
+
+/-! ### concurrent writers: atomic steps versus split steps
+
+Several update streams run concurrently; because `addLocation` / `deleteLocation` hold the write lock
+from their first statement to their return, an execution is some ordering of whole steps.  Every
+interleaving of the threads' steps is in particular a permutation of all their steps, so the theorems
+below quantify over ALL orderings `s` of the steps of ALL thread lists. -/
+
+/-- adds only -/
+def isAdd : Op → Prop
+  | .add _ _ => True
+  | _ => False
+
+theorem mem_denote_adds (s : List Op) (hs : ∀ op ∈ s, isAdd op) (m : Ref) (vid : Nat) (u : String) :
+    (∃ l, s.foldl refApply m vid = some l ∧ u ∈ l.map (·.url)) ↔
+      ((∃ l, m vid = some l ∧ u ∈ l.map (·.url)) ∨ ∃ loc, Op.add vid loc ∈ s ∧ loc.url = u) := by
+  induction s generalizing m with
+  | nil => simp
+  | cons op rest ih =>
+    rw [List.foldl_cons, ih (fun o ho => hs o (List.mem_cons_of_mem _ ho))]
+    have hop := hs op (List.mem_cons_self ..)
+    cases op with
+    | del v x => exact absurd hop (by simp [isAdd])
+    | hold v => exact absurd hop (by simp [isAdd])
+    | add v loc =>
+      simp only [refApply, refAdd, List.mem_cons, Op.add.injEq]
+      by_cases hv : vid = v
+      · subst hv
+        simp only [if_true]
+        cases hm : m vid with
+        | none =>
+          simp only [Option.some.injEq, exists_eq_left', List.map_cons, List.map_nil, List.mem_singleton]
+          constructor
+          · rintro (h | ⟨l2, h, e⟩)
+            · exact Or.inr ⟨loc, Or.inl ⟨trivial, rfl⟩, h.symm⟩
+            · exact Or.inr ⟨l2, Or.inr h, e⟩
+          · rintro (⟨l, h, _⟩ | ⟨l2, (⟨_, rfl⟩ | h), e⟩)
+            · simp at h
+            · exact Or.inl e.symm
+            · exact Or.inr ⟨l2, h, e⟩
+        | some l0 =>
+          by_cases hu : hasUrl l0 loc.url = true
+          · simp only [hu, if_true, Option.some.injEq, exists_eq_left']
+            constructor
+            · rintro (h | ⟨l2, h, e⟩)
+              · exact Or.inl h
+              · exact Or.inr ⟨l2, Or.inr h, e⟩
+            · rintro (h | ⟨l2, (⟨_, rfl⟩ | h), e⟩)
+              · exact Or.inl h
+              · exact Or.inl (by rw [← e]; exact (hasUrl_iff l0 _).mp hu)
+              · exact Or.inr ⟨l2, h, e⟩
+          · simp only [hu, Bool.false_eq_true, if_false, Option.some.injEq, exists_eq_left', List.map_append,
+              List.map_cons, List.map_nil, List.mem_append, List.mem_singleton]
+            constructor
+            · rintro ((h | h) | ⟨l2, h, e⟩)
+              · exact Or.inl h
+              · exact Or.inr ⟨loc, Or.inl ⟨trivial, rfl⟩, h.symm⟩
+              · exact Or.inr ⟨l2, Or.inr h, e⟩
+            · rintro (h | ⟨l2, (⟨_, rfl⟩ | h), e⟩)
+              · exact Or.inl (Or.inl h)
+              · exact Or.inl (Or.inr e.symm)
+              · exact Or.inr ⟨l2, h, e⟩
+      · have hv' : ¬ v = vid := fun e => hv e.symm
+        simp only [hv, if_false]
+        constructor
+        · rintro (h | ⟨l2, h, e⟩)
+          · exact Or.inl h
+          · exact Or.inr ⟨l2, Or.inr h, e⟩
+        · rintro (h | ⟨l2, (⟨e1, _⟩ | h), e⟩)
+          · exact Or.inl h
+          · exact e1.elim
+          · exact Or.inr ⟨l2, h, e⟩
+
+/-- MAIN (concurrent adders, atomic steps): whatever the interleaving `s` of the writers' `addLocation`
+    steps, afterwards a volume lists each url once, and lists exactly the urls some writer announced for it -/
+theorem concurrent_adds_each_once (threads : List (List Op)) (s : List Op) (hperm : s.Perm threads.flatten)
+    (hadds : ∀ t ∈ threads, ∀ op ∈ t, isAdd op) (vid : Nat) (l : List Loc)
+    (h : getLocations (run s) vid = some l) :
+    (l.map (·.url)).Nodup ∧
+    ∀ u, u ∈ l.map (·.url) ↔ ∃ t ∈ threads, ∃ loc, Op.add vid loc ∈ t ∧ loc.url = u := by
+  refine ⟨each_location_once s vid l h, ?_⟩
+  intro u
+  have hs : ∀ op ∈ s, isAdd op := by
+    intro op ho
+    have := (hperm.mem_iff).mp ho
+    obtain ⟨t, ht, hot⟩ := List.mem_flatten.mp this
+    exact hadds t ht op hot
+  rw [lookup_eq_reference] at h
+  have key := mem_denote_adds s hs (fun _ => none) vid u
+  simp only [reduceCtorEq, false_and, exists_false, false_or] at key
+  constructor
+  · intro hu
+    obtain ⟨loc, hmem, e⟩ := key.mp ⟨l, h, hu⟩
+    obtain ⟨t, ht, hot⟩ := List.mem_flatten.mp ((hperm.mem_iff).mp hmem)
+    exact ⟨t, ht, loc, hot, e⟩
+  · rintro ⟨t, ht, loc, hot, e⟩
+    have hmem : Op.add vid loc ∈ s := (hperm.mem_iff).mpr (List.mem_flatten.mpr ⟨t, ht, hot⟩)
+    obtain ⟨l', hl', hu⟩ := key.mpr ⟨loc, hmem, e⟩
+    simp only [denote] at h
+    rw [h] at hl'
+    cases hl'
+    exact hu
+
+/-- … and with removals mixed in, still each url once under every interleaving -/
+theorem concurrent_steps_each_once (threads : List (List Op)) (s : List Op) (_hperm : s.Perm threads.flatten)
+    (vid : Nat) (l : List Loc) (h : getLocations (run s) vid = some l) : (l.map (·.url)).Nodup :=
+  each_location_once s vid l h
+
+/-- the SPLIT model (check and append scheduled separately) does NOT have the property: two writers
+    announcing the same location can both see "not listed" and both append -/
+theorem split_add_not_each_once_witness :
+    let a : Loc := ⟨"u1", "dc1"⟩
+    (splitRun [.check 1 a, .check 2 a, .append 1 a, .append 2 a]).view = [a, a] ∧
+    (splitRun [.check 1 a, .append 1 a, .check 2 a, .append 2 a]).view = [a] := by decide
+
+/-- run back to back (no other step in between) the split steps ARE the atomic step -/
+theorem split_sequential_eq_atomic (ws : List (Nat × Loc)) (st : SSt) :
+    ((ws.flatMap fun w => [SStep.check w.1 w.2, SStep.append w.1 w.2]).foldl splitStep st).view
+      = ws.foldl (fun l w => atomicAdd l w.2) st.view := by
+  induction ws generalizing st with
+  | nil => rfl
+  | cons w rest ih =>
+    simp only [List.flatMap_cons, List.cons_append, List.nil_append, List.foldl_cons]
+    rw [ih]
+    congr 1
+    simp only [splitStep, List.lookup_cons, beq_self_eq_true, atomicAdd]
+    cases hasUrl st.view w.2.url <;> simp
+
+/-! ### T1: the atomic-step reading is tied to the source
+
+`src_addLocation` is the hash of the source of `vidMap.addLocation` as extracted on every run.  The
+pinned version was read as: first statement `vc.Lock()`, `defer vc.Unlock()`, then the map lookup, the
+`loc.Url == location.Url` loop and the append — all inside the one critical section.  Any edit of the
+function (e.g. moving the presence check under a separate read lock) breaks these obligations. -/
+
+theorem bridge_addLocation_atomic_pinned : SwV.Gen.C35.src_addLocation = "ad5c9200c5cd0453" := by decide
+
+/-- the duplicate check is still inside `addLocation` itself -/
+theorem bridge_addLocation_dupcheck_inside : SwV.Gen.C35.addLocation_dupCheck = "loc.Url == location.Url" := by decide
+
+theorem bridge_delete_get_pinned :
+    SwV.Gen.C35.src_deleteLocation = "04687eecb4eb521b" ∧ SwV.Gen.C35.src_GetLocations = "c5b85c4768527a6c" ∧
+    SwV.Gen.C35.deleteLocation_match = "loc.Url == location.Url" := by decide
+
+example : ([Op.add 1 ⟨"u1", ""⟩, Op.add 1 ⟨"u1", ""⟩] : List Op).Perm [[Op.add 1 ⟨"u1", ""⟩], [Op.add 1 ⟨"u1", ""⟩]].flatten := by
+  simp
 
 end SwV.Props.C35
